@@ -55,13 +55,14 @@ const (
 	OpRegisterComp               // register a new dummy component type
 	OpTouch                      // open a query of filter F (+QT) and close it immediately
 	OpLoadEntities               // Unsafe.LoadEntities of a dump taken from this world (only as locked-world probe)
+	OpLeakClose                  // close the query that a callback of an earlier operation left open (see Op.Leak)
 	NumKinds
 )
 
 var kindNames = [...]string{"NewPlain", "NewEntities", "New", "NewBatch", "Copy", "Add", "Remove", "Exchange", "Set", "Write",
 	"SetRel", "RemoveEntity", "AddBatch", "RemoveBatch", "ExchangeBatch", "SetRelBatch", "RemoveEntities", "Register",
 	"Unregister", "Open", "Next", "Close", "Count", "Shrink", "ShrinkLimit", "Reset", "Stats", "Observe", "Unobserve", "Emit",
-	"DumpLoad", "GC", "ResAdd", "ResRemove", "Invalid", "RegisterComp", "Touch", "LoadEntities"}
+	"DumpLoad", "GC", "ResAdd", "ResRemove", "Invalid", "RegisterComp", "Touch", "LoadEntities", "LeakClose"}
 
 func (k Kind) String() string { return kindNames[k] }
 
@@ -119,6 +120,9 @@ type Op struct {
 	O    int       // observer index
 	Fn   bool      // batch/entities callback given
 	Inv  int       // invalid call kind (OpInvalid)
+	// Leak: the operation's callback opens a Filter0 query and leaves it open when the operation returns
+	// (NewEntities with callback); it is closed by OpLeakClose
+	Leak bool `json:",omitempty"`
 }
 
 func relStr(rs []RelT) string {
@@ -142,6 +146,9 @@ func (o Op) String() string {
 	case OpNewPlain, OpShrink, OpReset, OpStats, OpDumpLoad, OpGC:
 	case OpNewEntities:
 		s += fmt.Sprintf("(%d,fn=%v)", o.N, o.Fn)
+		if o.Leak {
+			s += "+leaves a query open"
+		}
 	case OpNew:
 		s += fmt.Sprintf("(%s%s via %s init=%d)", o.Cs, relStr(o.T), o.Path, o.Init)
 	case OpNewBatch:
@@ -315,6 +322,7 @@ type Model struct {
 	NDummies int      // extra registered dummy component types
 	Created_ int      // creations in epoch
 	Removed_ int      // removals in epoch
+	Leaked   bool     // a query opened inside a callback is still open (Op.Leak)
 }
 
 // New creates an empty model with the given filter/observer specs and query slots.
@@ -374,6 +382,9 @@ func (m *Model) IsAlive(i int) bool {
 
 // Locked reports whether any query is open.
 func (m *Model) Locked() bool {
+	if m.Leaked {
+		return true
+	}
 	for i := range m.Queries {
 		if m.Queries[i].Open {
 			return true
@@ -636,7 +647,12 @@ func (m *Model) Valid(op *Op) bool {
 		}
 		return true
 	}
+	if op.Leak && (m.Leaked || op.K != OpNewEntities || !op.Fn || op.N < 1) {
+		return false
+	}
 	switch op.K {
+	case OpLeakClose:
+		return m.Leaked
 	case OpNew, OpNewBatch:
 		return op.Cs != 0 && fullTargets(op.Cs, op.T) && aliveT(op.T)
 	case OpCopy, OpRemoveEntity:
@@ -779,6 +795,11 @@ func (m *Model) Apply(op *Op) Result {
 			m.fire(&res, EvCreateEntity, 0, i, 0, 0, 0, false)
 		}
 		res.LockedCb = true
+		if op.Leak {
+			m.Leaked = true
+		}
+	case OpLeakClose:
+		m.Leaked = false
 	case OpNew:
 		var vf func(ct.Comp) int64
 		if op.Init != InitNil {
@@ -1103,6 +1124,9 @@ func (m *Model) Hash() string {
 		}
 	}
 	fmt.Fprintf(&sb, "|%d|%v", m.Epoch, m.Res)
+	if m.Leaked {
+		sb.WriteString("|leak")
+	}
 	return sb.String()
 }
 
